@@ -114,11 +114,13 @@ def _canon_files_round_robin(req, k):
 
 
 def body_request(wire, sched, *, B, M=None, cl=None, chunked=False, ctype=None, tempmode='real',
-                 touch=('body',), endless=None, max_calls=None, propagate=True, method='POST', retry=False, cfgvia=None, stages=None):
+                 touch=('body',), endless=None, max_calls=None, propagate=True, method='POST', retry=False, cfgvia=None, stages=None,
+                 keep_alive=False):
     """Serve one request whose body stream is SimStream(wire, sched)."""
     import ombott
     o = Obs()
     stream = SimStream(wire, sched, endless=endless, max_calls=max_calls)
+    stream.keep_alive = keep_alive
     o.stream = stream
     seen = o.seen = {}
     o.hang = None
